@@ -2,6 +2,7 @@
 from __future__ import annotations
 
 import math
+import os
 from typing import Any, Dict, List, Optional, Tuple
 
 import numpy as np
@@ -32,7 +33,7 @@ RULE = (
     "table with at least one paired row and one unpaired row; distinct = (frame id, task, divisions, statuses present, #scenes, matched-FP present?)"
 )
 ASSUMPTIONS = ["ground-truth uuids are unique inside a frame", "yaw-only rotations"]
-DECIDING = ["analyzer.tables_judged", "analyzer.rows_checked", "analyzer.paired_rows", "C19.status.TP", "C19.status.FP", "C19.status.TN", "C19.status.FN", "C19.matched_fp_rows", "get_object_status.judged", "C19.error_arrays_checked", "C19.summaries_checked", "C19.selections_checked", "C19.map_frame_tables", "C19.analyses_with_selections"]
+DECIDING = ["analyzer.tables_judged", "analyzer.rows_checked", "analyzer.paired_rows", "C19.status.TP", "C19.status.FP", "C19.status.TN", "C19.status.FN", "C19.matched_fp_rows", "get_object_status.judged", "C19.error_arrays_checked", "C19.summaries_checked", "C19.selections_checked", "C19.map_frame_tables", "C19.analyses_with_selections", "C19.ego2map_checked", "C19.pickle_roundtrips", "analyzer.clears"]
 JOBS = {"quick": 4, "thorough": 14}
 
 
@@ -62,6 +63,20 @@ def expected_rows(scenes: List[List[Any]]) -> List[Dict[str, Any]]:
     return rows
 
 
+def cell_equal(x: Any, y: Any) -> bool:
+    """Equality of two table cells (scalars, None / NaN, tuples or arrays)."""
+    if x is None or y is None:
+        return x is None and y is None or (isinstance(x, float) and math.isnan(x) and y is None) or (isinstance(y, float) and math.isnan(y) and x is None)
+    if isinstance(x, (tuple, list, np.ndarray)) or isinstance(y, (tuple, list, np.ndarray)):
+        try:
+            return bool(np.array_equal(np.asarray(x, dtype=float), np.asarray(y, dtype=float), equal_nan=True))
+        except (TypeError, ValueError):
+            return str(x) == str(y)
+    if isinstance(x, float) and isinstance(y, float) and math.isnan(x) and math.isnan(y):
+        return True
+    return bool(x == y)
+
+
 def ang_close(a: float, b: float, tol: float = 1e-6) -> bool:
     return abs(G.wrap_pi(a - b)) <= tol
 
@@ -81,6 +96,18 @@ def install(taps: Taps, ctx: Ctx, state: Dict[str, Any]) -> None:
         return add
 
     taps.method(ab.PerceptionAnalyzerBase, "add", add_factory, tapname="analyzer")
+
+    def clear_factory(orig):
+        def clear(self):
+            out = orig(self)
+            self.__dict__["_verif_scenes"] = []
+            ctx.count("analyzer.clears")
+            ctx.check(len(self.df) == 0 and self.num_scene == 0 and self.num_frame == 0, "C19/clear_leaves_rows_or_counters_behind", dict(rows=len(self.df), num_scene=self.num_scene, num_frame=self.num_frame), "analyzer")
+            return out
+
+        return clear
+
+    taps.method(ab.PerceptionAnalyzerBase, "clear", clear_factory, tapname="analyzer.clear")
 
     def status_factory(orig):
         def get_object_status(frame_results):
@@ -112,6 +139,19 @@ def judge_table(ctx: Ctx, an: Any, scenes: List[List[Any]]) -> None:
         if n_status[s]:
             ctx.count(f"C19.status.{s}", n_status[s])
     ctx.check(got_status == n_status, "C19/per_status_counts_differ_from_pass_fail_lists", dict(info, table=got_status, frames=n_status), tap)
+    from perception_eval.common.status import MatchingStatus
+
+    by_helper = {s: (an.get_status_num(s), an.get_status_num(MatchingStatus[s])) for s in n_status}
+    ctx.check(all(v == (n_status[s], n_status[s]) for s, v in by_helper.items()), "C19/per_status_counts_differ_from_pass_fail_lists", dict(info, helper="get_status_num", table=by_helper, frames=n_status), tap)
+    ctx.check(an.num_scene == len(scenes) and an.num_frame == sum(len(f) for f in scenes), "C19/scene_or_frame_counter_differs_from_added_results", dict(info, num_scene=an.num_scene, num_frame=an.num_frame), tap)
+    for si, frames in enumerate(scenes):
+        if len({fr.frame_name for fr in frames}) != len(frames):
+            continue  # several recordings pooled into one add(): frame numbers repeat, the per-frame registry is ambiguous
+        for fr in frames:
+            want = fr.frame_ground_truth.transforms[("base_link", "map")].matrix
+            got = an.get_ego2map(si, int(fr.frame_name))
+            ctx.count("C19.ego2map_checked")
+            ctx.check(np.allclose(got, want, rtol=0, atol=1e-9), "C19/stored_ego_pose_differs_from_the_frames_ego_pose", dict(info, scene=si, frame=fr.frame_name), tap)
     n_est = sum(len(fr.object_results) for frames in scenes for fr in frames)
     ctx.check(an.num_estimation == n_est, "C19/estimate_count_differs_from_evaluated_estimates", dict(info, table=an.num_estimation, frames=n_est), tap)
     n_gt = sum(len(fr.frame_ground_truth.objects) for frames in scenes for fr in frames)
@@ -333,4 +373,29 @@ def run(ctx: Ctx) -> None:
                     for frames in scenes_:
                         if len({fr.frame_name for fr in frames}) == len(frames):
                             pfr_mod.get_object_status(frames)
+                    # ---- the same frame results through the pickle entry point, after a clear(): same table
+                    if idx % 2 == 0:
+                        import pickle
+
+                        from ..frames import scratch_dir
+
+                        an2 = PerceptionAnalyzer3D(an.config, num_area_division=div)
+                        an2.add(scenes_[-1])  # something to clear
+                        an2.clear()
+                        for k, frames in enumerate(scenes_):
+                            path = os.path.join(scratch_dir(), f"c19_{os.getpid()}_{k}.pkl")
+                            with open(path, "wb") as f:
+                                pickle.dump(frames, f)
+                            try:
+                                an2.add_from_pkl(path)  # judged by the add tap against the unpickled frames
+                            finally:
+                                os.remove(path)
+                        ctx.count("C19.pickle_roundtrips")
+                        diffcols = []
+                        same = len(an2.df) == len(an.df) and list(an2.df.columns) == list(an.df.columns)
+                        if same:
+                            a_, b_ = an.df.reset_index(drop=True), an2.df.reset_index(drop=True)
+                            diffcols = [c for c in a_.columns if not all(cell_equal(x, y) for x, y in zip(a_[c].tolist(), b_[c].tolist()))]
+                            same = not diffcols
+                        ctx.check(same, "C19/table_from_pickled_results_after_clear_differs", dict(rows=len(an.df), rows_pkl=len(an2.df), columns=diffcols[:8]), "analyzer")
         ctx.notes["taps"] = taps.installed
